@@ -328,9 +328,6 @@ class Run:
                 self.bad("complete.early", f"pipeline.json written with is_complete=true while stages {notdone} are not flagged "
                          f"complete / batches {snap['live']} are still queued or running")
 
-    def on_start(self, e):
-        pass
-
     def expected_rc(self, s):
         """what stage s's results imply: the status value of its completion, 0 iff every job of the stage has a result
         (JADE's Status.GOOD; jobs that FAILED do not make the stage's code non-zero, their count is in results.json)"""
